@@ -40,7 +40,7 @@ def piece(report, tier, seed):
                           timeout=3000, heap="12g")
             evs = v["events"]
             events_total += evs
-            for rej in v["rejections"]:
+            for rej in v["rejections"][:40]:       # (a broken scan fails thousands of tuples: forty replays are enough)
                 e = rej["event"]
                 key = "merge:%s" % (json_key(e["strs"]))
                 report.violation(key, "assert_no_intersection(%s) -> %s, the specification's scan gives the other verdict (%s)"
